@@ -430,4 +430,633 @@ pub(crate) mod slice_c07 {
     }
 }
 ''' % body)
+    # ---- C07/C17/C19: ReCompiler::escape (whole body) ---------------------------
+    src = open(os.path.join(repo_dir, "regexml/src/re_compiler.rs"), encoding="utf-8").read()
+    ms = list(re.finditer(r"\n    fn escape\(&mut self, in_square_brackets: bool\)\s*->\s*Result<CharacterClassOrBackReference, Error>\s*\{", src))
+    if len(ms) != 1:
+        raise CannotEncode("anchor for ReCompiler::escape not found exactly once")
+    b0 = ms[0].end()
+    b1 = _match_brace(src, b0, "ReCompiler::escape")
+    body = src[b0:b1]
+    info["slices"]["c07_escape"] = {"file": "regexml/src/re_compiler.rs", "first_line": src.count("\n", 0, b0) + 1,
+                                    "lines": body.count("\n") + 1,
+                                    "anchor": "fn escape(&mut self, in_square_brackets: bool) -> Result<CharacterClassOrBackReference, Error> {"}
+    info["standins"].append("slice_esc::{View{pattern:&[char],idx,len,capturing_open_paren_count,captures,has_back_references,re_flags}, "
+                            "CharacterClassBuilder -> tag enum (which class, complemented or not), category::* -> tags, "
+                            "category_group -> the 37-name table, block -> arbitrary answer, String -> NameStr, format! -> unit, "
+                            "Error{Internal,Syntax}}: what ReCompiler::escape touches")
+    out.append('''
+pub(crate) mod slice_esc {
+    #![allow(unused)]
+    macro_rules! format {
+        ($($t:tt)*) => {
+            ()
+        };
+    }
+    #[derive(Clone, Copy, PartialEq, Eq)]
+    pub(crate) enum Language {
+        XSD,
+        XPath,
+    }
+    pub(crate) struct Flags {
+        pub lang: Language,
+    }
+    impl Flags {
+        pub(crate) fn language(&self) -> Language {
+            self.lang
+        }
+    }
+    pub(crate) enum Error {
+        Internal,
+        Syntax,
+    }
+    impl Error {
+        pub(crate) fn syntax<T>(_s: T) -> Error {
+            Error::Syntax
+        }
+    }
+    /// which multi-character class an escape denotes (contents are C10's subject)
+    #[derive(Clone, Copy, PartialEq, Eq)]
+    pub(crate) enum Kind {
+        Space,
+        NameStart,
+        NameChar,
+        Digit,
+        Word,
+        Category,
+        Block,
+        Other,
+    }
+    #[derive(Clone, Copy, PartialEq, Eq)]
+    pub(crate) struct Tag {
+        pub kind: Kind,
+        pub negated: bool,
+    }
+    pub(crate) enum CharacterClassBuilder {
+        Char(char),
+        CodePointInversionListBuilder(Tag),
+    }
+    impl CharacterClassBuilder {
+        pub(crate) fn from_char(c: char) -> Self {
+            CharacterClassBuilder::Char(c)
+        }
+        pub(crate) fn from_str(_s: &str) -> Self {
+            CharacterClassBuilder::CodePointInversionListBuilder(Tag { kind: Kind::Space, negated: false })
+        }
+        pub(crate) fn complement(self) -> Self {
+            match self {
+                CharacterClassBuilder::Char(_) => {
+                    CharacterClassBuilder::CodePointInversionListBuilder(Tag { kind: Kind::Other, negated: true })
+                }
+                CharacterClassBuilder::CodePointInversionListBuilder(t) => {
+                    CharacterClassBuilder::CodePointInversionListBuilder(Tag { kind: t.kind, negated: !t.negated })
+                }
+            }
+        }
+    }
+    pub(crate) enum CharacterClassOrBackReference {
+        CharacterClass(CharacterClassBuilder),
+        BackReference(usize),
+    }
+    impl From<CharacterClassBuilder> for CharacterClassOrBackReference {
+        fn from(cc: CharacterClassBuilder) -> Self {
+            Self::CharacterClass(cc)
+        }
+    }
+    /// stand-in for the String that holds a category / block name
+    pub(crate) struct NameStr {
+        pub a: [char; 8],
+        pub n: usize,
+    }
+    impl<'a> core::iter::FromIterator<&'a char> for NameStr {
+        fn from_iter<I: IntoIterator<Item = &'a char>>(it: I) -> Self {
+            let mut s = NameStr { a: ['\\0'; 8], n: 0 };
+            for c in it {
+                if s.n < 8 {
+                    s.a[s.n] = *c;
+                }
+                s.n += 1;
+            }
+            s
+        }
+    }
+    #[allow(non_camel_case_types)]
+    type String = NameStr;
+    pub(crate) mod category {
+        use super::{Error, Kind, NameStr, Tag};
+        fn t(kind: Kind) -> Tag {
+            Tag { kind, negated: false }
+        }
+        pub(crate) fn name_start_char() -> Tag {
+            t(Kind::NameStart)
+        }
+        pub(crate) fn name_char() -> Tag {
+            t(Kind::NameChar)
+        }
+        pub(crate) fn decimal_number() -> Tag {
+            t(Kind::Digit)
+        }
+        pub(crate) fn word_char() -> Tag {
+            t(Kind::Word)
+        }
+        /// the 37 XSD category names (the real table is e_category_names' subject)
+        pub(crate) fn category_group(s: &NameStr) -> Result<Tag, Error> {
+            let a = s.a[0];
+            let b = s.a[1];
+            let ok = match s.n {
+                1 => matches!(a, 'L' | 'M' | 'N' | 'P' | 'Z' | 'S' | 'C'),
+                2 => match a {
+                    'L' => matches!(b, 'u' | 'l' | 't' | 'm' | 'o'),
+                    'M' => matches!(b, 'n' | 'c' | 'e'),
+                    'N' => matches!(b, 'd' | 'l' | 'o'),
+                    'P' => matches!(b, 'c' | 'd' | 's' | 'e' | 'i' | 'f' | 'o'),
+                    'Z' => matches!(b, 's' | 'l' | 'p'),
+                    'S' => matches!(b, 'm' | 'c' | 'k' | 'o'),
+                    'C' => matches!(b, 'c' | 'f' | 'o' | 'n'),
+                    _ => false,
+                },
+                _ => false,
+            };
+            if ok { Ok(t(Kind::Category)) } else { Err(Error::Syntax) }
+        }
+        /// block names: 330-entry table, not modelled - an arbitrary answer
+        pub(crate) fn block(_s: &NameStr) -> Result<Tag, Error> {
+            if kani::any() { Ok(t(Kind::Block)) } else { Err(Error::Syntax) }
+        }
+    }
+    pub(crate) struct Caps {
+        pub closed: [bool; 16],
+    }
+    impl Caps {
+        pub(crate) fn contains(&self, g: &usize) -> bool {
+            *g < 16 && self.closed[*g]
+        }
+    }
+    pub(crate) struct View<'a> {
+        pub pattern: &'a [char],
+        pub len: usize,
+        pub idx: usize,
+        pub capturing_open_paren_count: usize,
+        pub captures: Caps,
+        pub has_back_references: bool,
+        pub re_flags: Flags,
+    }
+    impl<'a> View<'a> {
+        pub(crate) fn escape(&mut self, in_square_brackets: bool) -> Result<CharacterClassOrBackReference, Error> {
+            // ---- verbatim body of ReCompiler::escape ----
+%s
+            // ---- end of verbatim block ----
+        }
+    }
+}
+''' % body)
+    # ---- C20/C02/C17/C01: ReCompiler::piece (whole body) --------------------------
+    src = open(os.path.join(repo_dir, "regexml/src/re_compiler.rs"), encoding="utf-8").read()
+    ms = list(re.finditer(r"\n    fn piece\(&mut self, flags: &\[u32\]\)\s*->\s*Result<Operation, Error>\s*\{", src))
+    if len(ms) != 1:
+        raise CannotEncode("anchor for ReCompiler::piece not found exactly once")
+    b0 = ms[0].end()
+    b1 = _match_brace(src, b0, "ReCompiler::piece")
+    body = src[b0:b1]
+    info["slices"]["c20_piece"] = {"file": "regexml/src/re_compiler.rs", "first_line": src.count("\n", 0, b0) + 1,
+                                   "lines": body.count("\n") + 1,
+                                   "anchor": "fn piece(&mut self, flags: &[u32]) -> Result<Operation, Error> {"}
+    info["standins"].append("slice_piece::{View{pattern,idx,len,bracket_min,bracket_max,re_flags} with parse_terminal() = a harness-chosen "
+                            "abstract term (anchor or a term with symbolic static facts: nullability code, fixed match length) consuming one "
+                            "char, bracket() = a harness-chosen outcome (min<=max or Err) consuming one char; Operation and the operator "
+                            "constructors -> records of their arguments}: what ReCompiler::piece touches")
+    out.append('''
+pub(crate) mod slice_piece {
+    #![allow(unused)]
+    pub(crate) const NODE_NORMAL: u32 = 0;
+    pub(crate) const MATCHES_ZLS_ANYWHERE: u32 = 7;
+    #[derive(Clone, Copy, PartialEq, Eq)]
+    pub(crate) enum Language {
+        XSD,
+        XPath,
+    }
+    pub(crate) struct Flags {
+        pub lang: Language,
+    }
+    impl Flags {
+        pub(crate) fn language(&self) -> Language {
+            self.lang
+        }
+    }
+    pub(crate) enum Error {
+        Internal,
+        Syntax,
+    }
+    impl Error {
+        pub(crate) fn syntax<T>(_s: T) -> Error {
+            Error::Syntax
+        }
+    }
+    /// an abstract terminal: only the static facts piece() looks at
+    #[derive(Clone, Copy, PartialEq, Eq)]
+    pub(crate) struct Term {
+        pub zls: u32,
+        pub ml: Option<usize>,
+    }
+    #[derive(Clone, Copy, PartialEq, Eq)]
+    pub(crate) struct Bol;
+    #[derive(Clone, Copy, PartialEq, Eq)]
+    pub(crate) struct Eol;
+    #[derive(Clone, Copy, PartialEq, Eq)]
+    pub(crate) struct Nothing;
+    #[derive(Clone, Copy, PartialEq, Eq)]
+    pub(crate) struct GreedyFixed {
+        pub min: usize,
+        pub max: usize,
+        pub len: usize,
+    }
+    #[derive(Clone, Copy, PartialEq, Eq)]
+    pub(crate) struct ReluctantFixed {
+        pub min: usize,
+        pub max: usize,
+        pub len: usize,
+    }
+    #[derive(Clone, Copy, PartialEq, Eq)]
+    pub(crate) struct Repeat {
+        pub min: usize,
+        pub max: usize,
+        pub greedy: bool,
+    }
+    impl GreedyFixed {
+        pub(crate) fn new(_op: Operation, min: usize, max: usize, len: usize) -> Self {
+            GreedyFixed { min, max, len }
+        }
+    }
+    impl ReluctantFixed {
+        pub(crate) fn new(_op: Operation, min: usize, max: usize, len: usize) -> Self {
+            ReluctantFixed { min, max, len }
+        }
+    }
+    impl Repeat {
+        pub(crate) fn new(_op: Operation, min: usize, max: usize, greedy: bool) -> Self {
+            Repeat { min, max, greedy }
+        }
+    }
+    #[derive(Clone, Copy, PartialEq, Eq)]
+    pub(crate) enum Operation {
+        Bol(Bol),
+        Eol(Eol),
+        Term(Term),
+        Nothing(Nothing),
+        GreedyFixed(GreedyFixed),
+        ReluctantFixed(ReluctantFixed),
+        Repeat(Repeat),
+    }
+    impl From<Nothing> for Operation {
+        fn from(x: Nothing) -> Self {
+            Operation::Nothing(x)
+        }
+    }
+    impl From<GreedyFixed> for Operation {
+        fn from(x: GreedyFixed) -> Self {
+            Operation::GreedyFixed(x)
+        }
+    }
+    impl From<ReluctantFixed> for Operation {
+        fn from(x: ReluctantFixed) -> Self {
+            Operation::ReluctantFixed(x)
+        }
+    }
+    impl From<Repeat> for Operation {
+        fn from(x: Repeat) -> Self {
+            Operation::Repeat(x)
+        }
+    }
+    impl Operation {
+        pub(crate) fn matches_empty_string(&self) -> u32 {
+            match self {
+                Operation::Bol(_) => 1,
+                Operation::Eol(_) => 2,
+                Operation::Term(t) => t.zls,
+                _ => 7,
+            }
+        }
+        pub(crate) fn get_match_length(&self) -> Option<usize> {
+            match self {
+                Operation::Bol(_) | Operation::Eol(_) | Operation::Nothing(_) => Some(0),
+                Operation::Term(t) => t.ml,
+                _ => None,
+            }
+        }
+    }
+    pub(crate) struct View<'a> {
+        pub pattern: &'a [char],
+        pub len: usize,
+        pub idx: usize,
+        pub bracket_min: usize,
+        pub bracket_max: usize,
+        pub re_flags: Flags,
+        // environment: what the sub-parsers will answer
+        pub terminal: Operation,
+        pub bracket_ok: bool,
+        pub bracket_answer: (usize, usize),
+    }
+    impl<'a> View<'a> {
+        /// stand-in: the terminal is the one character at the cursor
+        pub(crate) fn parse_terminal(&mut self, _flags: &[u32]) -> Result<Operation, Error> {
+            self.idx += 1;
+            Ok(self.terminal)
+        }
+        /// stand-in: `{...}` is one token; the answer (min <= max, or an error) is the harness' choice
+        pub(crate) fn bracket(&mut self) -> Result<(), Error> {
+            if self.bracket_ok {
+                self.idx += 1;
+                self.bracket_min = self.bracket_answer.0;
+                self.bracket_max = self.bracket_answer.1;
+                Ok(())
+            } else {
+                Err(Error::Syntax)
+            }
+        }
+        pub(crate) fn piece(&mut self, flags: &[u32]) -> Result<Operation, Error> {
+            // ---- verbatim body of ReCompiler::piece ----
+%s
+            // ---- end of verbatim block ----
+        }
+    }
+}
+''' % body)
+    # ---- C09/C11: class parser + set algebra (three verbatim blocks) -------------
+    cc = open(os.path.join(repo_dir, "regexml/src/character_class.rs"), encoding="utf-8").read()
+    a0 = cc.find("pub(crate) enum CharacterClassBuilder {")
+    if a0 < 0 or cc.find("pub(crate) enum CharacterClassBuilder {", a0 + 1) >= 0:
+        raise CannotEncode("anchor for CharacterClassBuilder (character_class.rs) not found exactly once")
+    a1 = cc.find("#[cfg(test)]", a0)
+    algebra = cc[a0:a1 if a1 > 0 else len(cc)].rstrip() + "\n"
+    src = open(os.path.join(repo_dir, "regexml/src/re_compiler.rs"), encoding="utf-8").read()
+
+    def whole_fn(rx, what):
+        ms = list(re.finditer(rx, src))
+        if len(ms) != 1:
+            raise CannotEncode("anchor for %s not found exactly once" % what)
+        b0 = ms[0].end()
+        b1 = _match_brace(src, b0, what)
+        return src[b0:b1], src.count("\n", 0, b0) + 1
+
+    esc_body, esc_line = whole_fn(r"\n    fn escape\(&mut self, in_square_brackets: bool\)\s*->\s*Result<CharacterClassOrBackReference, Error>\s*\{", "ReCompiler::escape")
+    cls_body, cls_line = whole_fn(r"\n    fn parse_character_class\(&mut self\)\s*->\s*Result<CharacterClassBuilder, Error>\s*\{", "ReCompiler::parse_character_class")
+    tf_body, tf_line = whole_fn(r"\n    fn there_follows\(&self, s: &str\)\s*->\s*bool\s*\{", "ReCompiler::there_follows")
+    if cls_body.count("self.parse_character_class()") != 1:
+        raise CannotEncode("parse_character_class no longer has exactly one recursive call site")
+    if cls_body.count("self.escape(true)") != 1:
+        raise CannotEncode("parse_character_class no longer has exactly one escape() call site")
+    copies = ""
+    for esc in (True, False):
+        for lvl in (2, 1, 0):
+            name = "pcc_%s%d" % ("e" if esc else "ne", lvl)
+            nxt = ("pcc_%s%d" % ("e" if esc else "ne", lvl - 1)) if lvl > 0 else "parse_character_class_exhausted"
+            body_l = cls_body.replace("self.parse_character_class()", "self.%s()" % nxt)
+            if not esc:
+                body_l = body_l.replace("self.escape(true)", "self.escape_excluded(true)")
+            copies += ("        pub(crate) fn %s(&mut self) -> Result<CharacterClassBuilder, Error> {\n"
+                       "            // ---- verbatim body of ReCompiler::parse_character_class (nesting level %d, escapes %s) ----\n"
+                       "%s\n            // ---- end of verbatim block ----\n        }\n") % (name, lvl, "on" if esc else "excluded", body_l)
+    info["slices"]["c09_class_parser"] = {"file": "regexml/src/re_compiler.rs", "first_line": cls_line,
+                                          "lines": cls_body.count("\n") + 1,
+                                          "anchor": "fn parse_character_class(&mut self) -> Result<CharacterClassBuilder, Error> {",
+                                          "with": {"escape": esc_line}}
+    info["slices"]["c09_set_algebra"] = {"file": "regexml/src/character_class.rs", "first_line": cc.count("\n", 0, a0) + 1,
+                                         "lines": algebra.count("\n"), "anchor": "pub(crate) enum CharacterClassBuilder { .. } + impl"}
+    info["standins"].append("slice_cls: CodePointInversionListBuilder / built list -> PSet/PBuilt = membership of ONE symbolic probe character "
+                            "(add_char, add_range, add_set, remove_*, complement are exact for that character); CaseMapCloser -> arithmetic "
+                            "case model; multi-character escapes -> an arbitrary but fixed membership bit per escape kind; "
+                            "category_group -> the 37-name table, block -> arbitrary answer; String -> NameStr; format!/Error as in slice_esc; "
+                            "there_follows -> an equivalent helper comparing against the ASCII literal without building a Vec")
+    out.append('''
+pub(crate) mod slice_cls {
+    #![allow(unused)]
+    macro_rules! format {
+        ($($t:tt)*) => {
+            ()
+        };
+    }
+    /// the probe character all stand-in sets answer membership for
+    pub(crate) static mut PROBE: char = 'x';
+    /// membership of the probe in \\s-like multi-character escapes is exact; for the
+    /// table-driven ones (\\i \\c \\d \\w \\p{..} blocks) an arbitrary fixed bit per kind
+    pub(crate) static mut KIND_HAS: [bool; 6] = [false; 6];
+    fn probe() -> char {
+        unsafe { PROBE }
+    }
+    fn kind_has(k: usize) -> bool {
+        unsafe { KIND_HAS[k] }
+    }
+    #[derive(Clone, Copy)]
+    pub(crate) struct PBuilt {
+        pub has: bool,
+    }
+    #[derive(Clone, Copy)]
+    pub(crate) struct PSet {
+        pub has: bool,
+    }
+    impl PSet {
+        pub(crate) fn new() -> Self {
+            PSet { has: false }
+        }
+        pub(crate) fn add_char(&mut self, c: char) {
+            if c == probe() {
+                self.has = true;
+            }
+        }
+        pub(crate) fn remove_char(&mut self, c: char) {
+            if c == probe() {
+                self.has = false;
+            }
+        }
+        pub(crate) fn add_range(&mut self, r: &core::ops::RangeInclusive<char>) {
+            if *r.start() <= probe() && probe() <= *r.end() {
+                self.has = true;
+            }
+        }
+        pub(crate) fn add_set(&mut self, o: &PBuilt) {
+            if o.has {
+                self.has = true;
+            }
+        }
+        pub(crate) fn remove_set(&mut self, o: &PBuilt) {
+            if o.has {
+                self.has = false;
+            }
+        }
+        pub(crate) fn complement(&mut self) {
+            self.has = !self.has;
+        }
+        pub(crate) fn build(self) -> PBuilt {
+            PBuilt { has: self.has }
+        }
+    }
+    #[allow(non_camel_case_types)]
+    type CodePointInversionListBuilder = PSet;
+    pub(crate) struct CharacterClass(pub PBuilt);
+    pub(crate) struct CaseMapCloser;
+    impl CaseMapCloser {
+        pub(crate) fn new() -> Self {
+            CaseMapCloser
+        }
+        /// adds the case counterparts of c (not c itself), per the arithmetic case model
+        pub(crate) fn add_case_closure_to(&self, c: char, b: &mut PSet) {
+            if probe() != c && super::model_eq_ci(probe(), c) {
+                b.has = true;
+            }
+        }
+    }
+    #[derive(Clone, Copy, PartialEq, Eq)]
+    pub(crate) enum Language {
+        XSD,
+        XPath,
+    }
+    pub(crate) struct Flags {
+        pub lang: Language,
+        pub ci: bool,
+    }
+    impl Flags {
+        pub(crate) fn language(&self) -> Language {
+            self.lang
+        }
+        pub(crate) fn is_case_independent(&self) -> bool {
+            self.ci
+        }
+    }
+    pub(crate) enum Error {
+        Internal,
+        Syntax,
+    }
+    impl Error {
+        pub(crate) fn syntax<T>(_s: T) -> Error {
+            Error::Syntax
+        }
+    }
+    pub(crate) struct NameStr {
+        pub a: [char; 8],
+        pub n: usize,
+    }
+    impl<'a> core::iter::FromIterator<&'a char> for NameStr {
+        fn from_iter<I: IntoIterator<Item = &'a char>>(it: I) -> Self {
+            let mut s = NameStr { a: ['\\0'; 8], n: 0 };
+            for c in it {
+                if s.n < 8 {
+                    s.a[s.n] = *c;
+                }
+                s.n += 1;
+            }
+            s
+        }
+    }
+    #[allow(non_camel_case_types)]
+    type String = NameStr;
+    pub(crate) mod category {
+        use super::{kind_has, Error, NameStr, PSet};
+        pub(crate) fn name_start_char() -> PSet {
+            PSet { has: kind_has(0) }
+        }
+        pub(crate) fn name_char() -> PSet {
+            PSet { has: kind_has(1) }
+        }
+        pub(crate) fn decimal_number() -> PSet {
+            PSet { has: kind_has(2) }
+        }
+        pub(crate) fn word_char() -> PSet {
+            PSet { has: kind_has(3) }
+        }
+        pub(crate) fn category_group(s: &NameStr) -> Result<PSet, Error> {
+            let a = s.a[0];
+            let b = s.a[1];
+            let ok = match s.n {
+                1 => matches!(a, 'L' | 'M' | 'N' | 'P' | 'Z' | 'S' | 'C'),
+                2 => match a {
+                    'L' => matches!(b, 'u' | 'l' | 't' | 'm' | 'o'),
+                    'M' => matches!(b, 'n' | 'c' | 'e'),
+                    'N' => matches!(b, 'd' | 'l' | 'o'),
+                    'P' => matches!(b, 'c' | 'd' | 's' | 'e' | 'i' | 'f' | 'o'),
+                    'Z' => matches!(b, 's' | 'l' | 'p'),
+                    'S' => matches!(b, 'm' | 'c' | 'k' | 'o'),
+                    'C' => matches!(b, 'c' | 'f' | 'o' | 'n'),
+                    _ => false,
+                },
+                _ => false,
+            };
+            if ok { Ok(PSet { has: kind_has(4) }) } else { Err(Error::Syntax) }
+        }
+        pub(crate) fn block(_s: &NameStr) -> Result<PSet, Error> {
+            if kani::any() { Ok(PSet { has: kind_has(5) }) } else { Err(Error::Syntax) }
+        }
+    }
+    pub(crate) struct Caps {
+        pub closed: [bool; 16],
+    }
+    impl Caps {
+        pub(crate) fn contains(&self, g: &usize) -> bool {
+            *g < 16 && self.closed[*g]
+        }
+    }
+    pub(crate) enum CharacterClassOrBackReference {
+        CharacterClass(CharacterClassBuilder),
+        BackReference(usize),
+    }
+    impl From<CharacterClassBuilder> for CharacterClassOrBackReference {
+        fn from(cc: CharacterClassBuilder) -> Self {
+            Self::CharacterClass(cc)
+        }
+    }
+    // ---- verbatim from character_class.rs (CharacterClassBuilder and its set algebra) ----
+%s
+    // ---- end of verbatim block ----
+    pub(crate) struct View<'a> {
+        pub pattern: &'a [char],
+        pub len: usize,
+        pub idx: usize,
+        pub capturing_open_paren_count: usize,
+        pub captures: Caps,
+        pub has_back_references: bool,
+        pub re_flags: Flags,
+        pub nesting_exhausted: bool,
+        pub escape_reached: bool,
+    }
+    impl<'a> View<'a> {
+        /// stand-in for ReCompiler::there_follows (the real one collects the ASCII
+        /// literal into a Vec<char> first, which dominates symbolic execution time)
+        pub(crate) fn there_follows(&self, s: &str) -> bool {
+            let b = s.as_bytes();
+            if self.idx + b.len() > self.len {
+                return false;
+            }
+            let mut i = 0;
+            while i < b.len() {
+                if self.pattern[self.idx + i] != (b[i] as char) {
+                    return false;
+                }
+                i += 1;
+            }
+            true
+        }
+        pub(crate) fn escape(&mut self, in_square_brackets: bool) -> Result<CharacterClassOrBackReference, Error> {
+            // ---- verbatim body of ReCompiler::escape ----
+%s
+            // ---- end of verbatim block ----
+        }
+        // parse_character_class is recursive (class subtraction) and calls escape().
+        // CBMC explores both even where a harness' assumptions exclude them, and Kani
+        // applies its unwinding bound to recursion depth too.  So the body is pasted
+        // once per (nesting level, escapes yes/no): the ONE recursive call site is
+        // redirected to the next level, and in the "ne" copies the ONE escape() call
+        // site is redirected to a flag-setting stub (texts without backslash).
+%s
+        /// nesting budget used up: the harness learns about it through this flag
+        pub(crate) fn parse_character_class_exhausted(&mut self) -> Result<CharacterClassBuilder, Error> {
+            self.nesting_exhausted = true;
+            Err(Error::Syntax)
+        }
+        /// escape reached in a copy generated for backslash-free texts
+        pub(crate) fn escape_excluded(&mut self, _in_square_brackets: bool) -> Result<CharacterClassOrBackReference, Error> {
+            self.escape_reached = true;
+            Err(Error::Syntax)
+        }
+    }
+}
+''' % (algebra, esc_body, copies))
     return "\n".join(out), info
